@@ -5,6 +5,7 @@ from __future__ import absolute_import, unicode_literals
 
 import typing
 
+import threading
 from collections import OrderedDict
 
 _K = typing.TypeVar("_K")
@@ -23,21 +24,24 @@ class LRUCache(OrderedDict, typing.Generic[_K, _V]):
         # type: (int) -> None
         """Create a new LRUCache with the given size."""
         self.cache_size = cache_size
+        self._lock = threading.RLock()
         super(LRUCache, self).__init__()
 
     def __setitem__(self, key, value):
         # type: (_K, _V) -> None
         """Store a new views, potentially discarding an old value."""
-        if key not in self:
-            if len(self) >= self.cache_size:
-                self.popitem(last=False)
-        OrderedDict.__setitem__(self, key, value)
+        with self._lock:
+            if key not in self:
+                if len(self) >= self.cache_size:
+                    self.popitem(last=False)
+            OrderedDict.__setitem__(self, key, value)
 
     def __getitem__(self, key):
         # type: (_K) -> _V
         """Get the item, but also makes it most recent."""
         _super = typing.cast(OrderedDict, super(LRUCache, self))
-        value = _super.__getitem__(key)
-        _super.__delitem__(key)
-        _super.__setitem__(key, value)
+        with self._lock:
+            value = _super.__getitem__(key)
+            _super.__delitem__(key)
+            _super.__setitem__(key, value)
         return value
